@@ -316,7 +316,7 @@ BUILTIN_CALLS = [
     ("MID$({0}, {1}, {2})", "$%%", "$"), ("MID$({0}, {1})", "$%", "$"), ("LEFT$({0}, {1})", "$%", "$"), ("RIGHT$({0}, {1})", "$%", "$"),
     ("INSTR({0}, {1}, {2})", "%$$", "%"), ("INSTR({0}, {1})", "$$", "%"), ("CHR$({0})", "%", "$"), ("STR$({0})", "%", "$"), ("VAL({0})", "$", "%"),
     ("UCASE$({0})", "$", "$"), ("LCASE$({0})", "$", "$"), ("LTRIM$({0})", "$", "$"), ("RTRIM$({0})", "$", "$"), ("SPACE$({0})", "%", "$"),
-    ("STRING$({0}, {1})", "%%", "$"), ("MKD$({0})", "%", "$"), ("CVD({0})", "$", "%"),
+    ("STRING$({0}, 65)", "%", "$"), ("STRING$({0}, \"x\")", "%", "$"), ("MKD$({0})", "%", "$"), ("CVD({0})", "$", "%"),
 ]
 
 
